@@ -190,19 +190,19 @@ func (r *Report) Finish(verifDir string, known *KnownFile, cmdline string) int {
 		expl += " NOT DECIDED by this check: " + r.NotDecided
 	}
 	cov := map[string]interface{}{
-		"explanation":         expl,
-		"obligations":         len(r.Obls),
-		"discharged":          nDis,
-		"evaluations":         len(r.Obls),
-		"distinct_nontrivial": distinct,
-		"rule":                "one case = one obligation <property>.<rule>@<construct>; non-trivial = the rule matched at least one site in /repo's current source (a rule with zero sites is reported, never passed)",
-		"samples":             samples,
-		"analysed":            r.Analysed,
+		"explanation":             expl,
+		"obligations":             len(r.Obls),
+		"discharged":              nDis,
+		"evaluations":             len(r.Obls),
+		"distinct_nontrivial":     distinct,
+		"rule":                    "one case = one obligation <property>.<rule>@<construct>; non-trivial = the rule matched at least one site in /repo's current source (a rule with zero sites is reported, never passed)",
+		"samples":                 samples,
+		"analysed":                r.Analysed,
 		"known_findings_reported": nKnown,
-		"checker_cmd":         cmdline,
-		"trusted_base":        r.Trusted,
-		"notes":               r.Notes,
-		"exhaustive":          false,
+		"checker_cmd":             cmdline,
+		"trusted_base":            r.Trusted,
+		"notes":                   r.Notes,
+		"exhaustive":              false,
 	}
 	ev := map[string]interface{}{
 		"property_id": r.Prop, "tier": r.Tier, "seed": r.Seed, "level": "other",
